@@ -10,10 +10,12 @@ CLAIM = ('Decides statically the structural conditions under which all configura
          'software and hardware AES paths have identical round structure; dataset initialisation writes exactly the requested items whichever initialiser runs; the Argon2 implementations share their addressing skeleton; '
          'the x86 emitter agrees with the interpreter on opcode map, marks, masks and immediates. Equality of the 256-bit results is numeric and not claimed.'
          ' Also: BIND-EXCL; ISUB_R immediate handling (IMM-NEG) in all four JIT back-ends including the RV64 vector generator, whose opcode table and last-writer marking are compared with the interpreter as well; the non-int128 mulh / smulh / rotr / rotl (PORT-INT: canonical form, bit-routing proof, or a concrete counterexample).'
-         ' The integer register-form handlers of all four code generators are validated against specification 5.2 by symbolic execution of the code they emit (X86-HSEM, A64-HSEM, RV-HSEM x2); the RVV generator binds the n-th reciprocal literal to the slot it stored it in (RVV-RCPPOOL).')
+         ' The integer register-form handlers of all four code generators are validated against specification 5.2 by symbolic execution of the code they emit (X86-HSEM, A64-HSEM, RV-HSEM x2); the RVV generator binds the n-th reciprocal literal to the slot it stored it in (RVV-RCPPOOL).'
+         ' The marks of the RVV generator are the current instruction (LW-VALUE); the x86 CFROUND bytes are decided bit by bit (X86-CFR-BITS).')
 LEVEL_NOTE = 'Trusted: clang AST, assembled object of the x86 runtime; semantics of emitted machine code; numeric equality of engines.'
 EXPLANATION = ('VM-DISPATCH, DS-COMPOSE, V2-GATES, DS-ASM-MP, FLAG-PROP, DRV-SEQ/SIB, SPEC-LOOP, AES-SWITCH/AES-ASM, RACE-RANGE, DS-INITSEL, A2-DISPATCH/A2-SKELETON, TAB-OPC/LW-SIB/MEM-JITMASK/IMM-ENC. BIND-EXCL, IMM-NEG x4, TAB-OPC / LW-SIB for the RVV generator, PORT-INT, DS-RANGE-EVAL.'
-         ' X86-HSEM, A64-HSEM, RV-HSEM (scalar, vector), RVV-RCPPOOL.')
+         ' X86-HSEM, A64-HSEM, RV-HSEM (scalar, vector), RVV-RCPPOOL.'
+         ' LW-VALUE (rvv), CFR-SIB / X86-CFR-BITS.')
 
 
 def run(ctx, R):
